@@ -493,9 +493,221 @@ def check_C11(c):
     return out
 
 
+# --------------------------------------------------------------------- C16
+
+
+def check_C16(c):
+    out = []
+    rels = {int(x): r for x, r in (c.final.get("rels") or {}).items() if r}
+    rel2x = {r: x for x, r in rels.items()}
+    # per scheduler process: xp name, submitted jobs, linked jobs, block completed?
+    runs = {}
+    for ev in c.by["xp-enter-call"]:
+        runs[ev[2]] = {"xp": ev[5]["xp"], "entered": None, "ended": None, "completed": False, "submitted": set(),
+                       "linked": set(), "order": ev[0]}
+    for ev in c.by["xp-entered"]:
+        runs[ev[2]]["entered"] = ev[0]
+        runs[ev[2]]["order"] = ev[0]     # runs are ordered by when they obtained the experiment
+    raised = {e[2] for e in c.by["user-raise"]}
+    block_end = {ev[2]: ev[0] for ev in c.by["xp-block-end"]}
+    for ev in c.by["submit-return"]:
+        if ev[2] in runs:
+            runs[ev[2]]["submitted"].add(ev[5]["x"])
+    for ev in c.by["state"]:
+        if ev[2] in runs and ev[5]["where"] == "aio_submit" and ev[5]["new"] == "WAITING" and ev[5]["x"] is not None:
+            runs[ev[2]]["linked"].add(ev[5]["x"])
+    for ev in c.by["xp-exit"]:
+        runs[ev[2]]["ended"] = ev[0]
+    for ev in c.by["proc-killed"]:
+        if ev[5]["pid"] in runs and runs[ev[5]["pid"]]["ended"] is None:
+            runs[ev[5]["pid"]]["ended"] = ev[0]
+    for ev in c.by["proc-exit"]:
+        if ev[2] in runs and runs[ev[2]]["ended"] is None:
+            runs[ev[2]]["ended"] = ev[0]
+    # a plan is completed when its block ended without exception and every job it
+    # submitted has gone through the link step (from then on the new index is
+    # authoritative and the backup may go); a run killed before that is aborted
+    for pid, r in runs.items():
+        if pid in block_end and pid not in raised and r["submitted"] <= r["linked"]:
+            r["completed"] = max([block_end[pid]] + [ev[0] for ev in c.by["state"]
+                                                     if ev[2] == pid and ev[5]["where"] == "aio_submit" and ev[5]["new"] == "WAITING"])
+    # exclusivity
+    byxp = defaultdict(list)
+    for pid, r in runs.items():
+        if r["entered"] is not None:
+            byxp[r["xp"]].append((r["entered"], r["ended"] if r["ended"] is not None else 10 ** 12, pid))
+    for xp, ivs in byxp.items():
+        ivs.sort()
+        for a, b in zip(ivs, ivs[1:]):
+            if b[0] < a[1]:
+                out.append(V("C16", "two-holders", {}, "pids %d and %d are both inside experiment %s (seq %d..%d and %d..)" % (a[2], b[2], xp, a[0], a[1], b[0])))
+
+    def protected(xp, upto):
+        """jobs of the last completed plan + jobs linked by later (aborted) runs, as of seq upto"""
+        last = None
+        for pid, r in runs.items():
+            if r["xp"] == xp and r["completed"] and r["completed"] <= upto:
+                if last is None or r["completed"] > last[1]["completed"]:
+                    last = (pid, r)
+        prot = set()
+        since = 0
+        if last is not None:
+            prot |= {x for x in last[1]["submitted"]}
+            since = last[1]["order"]
+        linked_at = {}
+        for ev in c.by["state"]:
+            if ev[5]["where"] == "aio_submit" and ev[5]["new"] == "WAITING" and ev[0] <= upto and ev[2] in runs:
+                r = runs[ev[2]]
+                if r["xp"] == xp and r["order"] > since and ev[5]["x"] is not None:
+                    prot.add(ev[5]["x"])
+        return prot, last
+
+    def listed(snap):
+        s = set()
+        for sub in ("jobs", "jobs.bak"):
+            if snap.get(sub):
+                s |= set(snap[sub])
+        return s
+
+
+    snaps = [(ev[0], ev[5]["xp"], ev[5]["when"], ev[5]["snap"], ev[2] if ev[5]["when"] == "exit" else ev[5].get("victim")) for ev in c.by["index"]]
+    for name, snap in (c.final.get("index") or {}).items():
+        snaps.append((10 ** 12, name, "final", snap, None))
+    for seq, xp, when, snap, pid in snaps:
+        prot, last = protected(xp, seq)
+        have = listed(snap)
+        ondisk = set(snap.get("dirs") or [])
+        missing = sorted(x for x in prot if rels.get(x) and rels[x] not in have and rels[x] in ondisk)
+        if missing:
+            out.append(V("C16", "protected-job-unindexed", {"when": when},
+                         "experiment %s at seq %d (%s): jobs %s of the last completed plan / begun by an aborted run are in neither index (jobs=%s, bak=%s)"
+                         % (xp, seq, when, missing, sorted(snap.get("jobs") or []), None if snap.get("jobs.bak") is None else sorted(snap["jobs.bak"]))))
+        if when == "exit" and pid in runs and runs[pid]["completed"] and not any(e[2] == pid for e in c.by["user-raise"]):
+            r = runs[pid]
+            want = {rels[x] for x in r["submitted"] if rels.get(x)}
+            got = set(snap.get("jobs") or [])
+            if got != want:
+                out.append(V("C16", "index-differs-from-plan", {"extra": bool(got - want), "missing": bool(want - got)},
+                             "experiment %s after a normal end of pid %d: index has %s, plan submitted %s" % (xp, pid, sorted(got), sorted(want))))
+            if snap.get("jobs.bak") is not None:
+                out.append(V("C16", "backup-left-after-normal-end", {}, "experiment %s: jobs.bak still present after a normal end (pid %d)" % (xp, pid)))
+            dirs = {}
+            for ev in c.by["index"]:
+                if ev[0] == seq:
+                    dirs = ev[5].get("dirs") or {}
+            for x, d in dirs.items():
+                rel = rels.get(int(x))
+                if rel and (snap.get("jobs") or {}).get(rel) not in (None, d):
+                    out.append(V("C16", "link-target-wrong", {}, "link %s points to %s, job directory is %s" % (rel, snap["jobs"][rel], d)))
+    orph = c.final.get("orphans")
+    if orph is not None:
+        if "error" in orph:
+            out.append(V("C16", "orphans-command-failed", {}, "orphans command raised %s" % orph["error"]))
+        else:
+            for name in (c.final.get("index") or {}):
+                prot, _ = protected(name, 10 ** 12)
+                bad = sorted(x for x in prot if rels.get(x) in set(orph["orphans"]))
+                if bad:
+                    out.append(V("C16", "protected-job-reported-orphan", {}, "orphans command lists jobs %s of experiment %s" % (bad, name)))
+    return out
+
+
+# --------------------------------------------------------------------- C19
+
+
+def check_C19(c):
+    from .cliops import ref_eval
+
+    out = []
+    calls = {}
+    ops = []
+    for ev in c.events:
+        if ev[4] == "cli-call":
+            calls[ev[2]] = ev
+        elif ev[4] == "cli-return" and ev[2] in calls:
+            ops.append((calls.pop(ev[2]), ev))
+    for call, ret in ops:
+        op = call[5]["op"]
+        before, after = call[5]["snap"], ret[5]["snap"]
+        removed = sorted(set(before["jobs"]) - set(after["jobs"]))
+        rms = [ev for ev in c.by["cli-rmtree"] if ev[2] == call[2] and call[0] < ev[0] < ret[0]]
+        cmd = op["cmd"]
+        destructive = (cmd == "jobs-clean" and op.get("perform")) or (cmd == "orphans" and op.get("clean"))
+        desc = " ".join(call[5]["args"])
+        other_rm = [ev for ev in c.by["cli-rmtree"] if ev[2] != call[2] and call[0] < ev[0] < ret[0]]
+        if ret[5].get("exc") and ret[5]["exc"].startswith("FileNotFoundError") and other_rm:
+            # another cleaning command deleted the same folder concurrently: the command
+            # stops with a traceback but nothing unselected is removed (not claimed)
+            pass
+        elif ret[5].get("exc"):
+            kind = "filter-raises" if op.get("filter") is not None else "cli-exception"
+            fops = sorted(_filter_ops(op["filter"])) if op.get("filter") is not None else []
+            out.append(V("C19", kind, {"ops": fops, "exc": ret[5]["exc"].split(":")[0]}, "`%s` raised %s" % (desc, ret[5]["exc"])))
+        if not destructive:
+            if rms:
+                out.append(V("C19", "removed-without-perform", {"cmd": cmd}, "`%s` removed %s" % (desc, [e[5]["rel"] for e in rms])))
+            continue
+        stable = not [p for p in before["busy"] if p != call[2]] and not [p for p in after["busy"] if p != call[2]]
+        for ev in rms:
+            p = ev[5]
+            if p["alive"]:
+                out.append(V("C19", "running-job-removed", {"cmd": cmd, "markers": p["markers"]},
+                             "`%s` removed %s (x=%s) while its process %s was running (markers %s)" % (desc, p["rel"], p["x"], p["alive"], p["markers"])))
+            if cmd == "jobs-clean":
+                if p["state"] not in ("DONE", "ERROR"):
+                    out.append(V("C19", "unfinished-job-removed", {"state": p["state"]}, "`%s` removed %s in state %s" % (desc, p["rel"], p["state"])))
+                if op.get("filter") is not None and not ref_eval(op["filter"], p["tags"], p["state"], p["name"]):
+                    out.append(V("C19", "unselected-job-removed", {"ops": sorted(_filter_ops(op["filter"]))},
+                                 "`%s` removed %s (tags %s, state %s) which the filter does not select" % (desc, p["rel"], p["tags"], p["state"])))
+                if op.get("experiment") and op["experiment"] not in p["indexed"]:
+                    out.append(V("C19", "other-experiment-job-removed", {},
+                                 "`%s` removed %s which experiment %s does not index (indexed by %s)" % (desc, p["rel"], op["experiment"], p["indexed"])))
+            else:
+                if p["indexed"]:
+                    at_call = any(p["rel"] in (e.get(sub) or []) for e in before["index"].values() for sub in ("jobs", "jobs.bak"))
+                    out.append(V("C19", "indexed-job-removed", {"indexed_when_command_started": at_call, "experiment_running": bool(before["busy"])},
+                                 "`%s` removed %s which is indexed by %s (indexed when the command started: %s)" % (desc, p["rel"], p["indexed"], at_call)))
+        if stable and not ret[5].get("exc"):
+            # nothing else ran: the removed set is exactly determined
+            if cmd == "jobs-clean":
+                unfinished_xp = any(e.get("jobs.bak") is not None for e in before["index"].values())
+                want = set()
+                for rel, info in before["jobs"].items():
+                    if info["state"] not in ("DONE", "ERROR"):
+                        continue
+                    if op.get("filter") is not None and not ref_eval(op["filter"], info["tags"], info["state"], info["name"]):
+                        continue
+                    if op.get("experiment"):
+                        e = before["index"].get(op["experiment"]) or {}
+                        if rel not in (e.get("jobs") or []):
+                            continue
+                    want.add(rel)
+            else:
+                indexed = set()
+                for e in before["index"].values():
+                    for sub in ("jobs", "jobs.bak"):
+                        indexed |= set(e.get(sub) or [])
+                want = {rel for rel in before["jobs"] if rel not in indexed}
+            got = set(removed)
+            if got != want:
+                out.append(V("C19", "removed-set-differs", {"cmd": cmd, "extra": bool(got - want), "missing": bool(want - got),
+                                                            "ops": sorted(_filter_ops(op["filter"])) if op.get("filter") is not None else []},
+                             "`%s`: removed %s, expected %s" % (desc, sorted(got), sorted(want))))
+    return out
+
+
+def _filter_ops(ast):
+    if ast[0] in ("and", "or"):
+        s = {ast[0]}
+        for a in ast[1:]:
+            s |= _filter_ops(a)
+        return s
+    return {ast[0]}
+
+
 ORACLES = {
     "C04": check_C04, "C05": check_C05, "C06": check_C06, "C07": check_C07,
-    "C08": check_C08, "C09": check_C09, "C11": check_C11,
+    "C08": check_C08, "C09": check_C09, "C11": check_C11, "C16": check_C16, "C19": check_C19,
 }
 
 
